@@ -107,6 +107,7 @@ def table():
         ("optapply2", [ANY, ANY], opt_sized(2), rv_only),
         ("optseq", [ANY], mask_shapes, rv_only),
         ("optcat", [ANY], mask_shapes, rv_only),
+        ("opttocont", [ANY], opt_sized(1), rv_only),
         # move_if / move_if_rvalue themselves (l: lvalue that must stay, i: lvalue the caller asked to move)
         ("moveif", ["lcr"], one([[0]]), rv_only),
         ("moveif", ["icr"], one([[1]]), lambda cats: cats[0] in "ir"),
@@ -123,6 +124,24 @@ def table():
         ("eithjoin", [ANY], one([[0], [1], [2]]), rv_only),
         ("eithapply2", [ANY, ANY], one([[a, b] for a in (0, 1) for b in (0, 1)], 2), rv_only),
         ("eithseq", ["r"], sized(1, par=lambda s: masks(s[0], 1)), always),
+        # variant<T, w1<T>, w2<T>>
+        ("varmatch", [ANY], one([[0], [1], [2]]), always),
+        ("varapply", [ANY], one([[0], [1], [2]]), always),
+        ("varapply2", [ANY, ANY], one([[a, b] for a in range(3) for b in range(3)], 2), always),
+        ("vartoopt", [ANY], one([[a, b] for a in range(3) for b in range(2)]), rv_only),
+        # tuples, arrays, records: the size is a template argument (0..3; two-container operations 0..2)
+        ("tupmap", [ANY], sized(1, cap=3), always),
+        ("tuppush", [ANY, ANY], sized(2, {1: [1]}, cap=3), rv_only),
+        ("tupconcat", ["r", "r"], sized(2, cap=2), always),
+        ("arrmap", [ANY], sized(1, cap=3), always),
+        ("arrpush", ["r", ANY], sized(2, {1: [1]}, cap=3), rv_only),
+        ("arrjoin2", ["r", ANY], sized(2, cap=2), rv_only),
+        ("arrjoin3", ["r", ANY, ANY], sized(3, {2: [1]}, cap=2), rv_only),
+        ("arrfromrange", [ANY], sized(1, par=lambda s: [[k] for k in range(4)], cap=4), rv_only),
+        ("recmap", ["r"], sized(1, cap=3), always),
+        ("recpermute", [ANY], sized(1, par=lambda s: [list(p) for p in itertools.permutations(range(s[0]))], cap=3), rv_only),
+        ("recmuldisj", [ANY, ANY], sized(2, cap=2), rv_only),
+        ("contmake", ["ir", "ir"], one([[]], 2), always),
         ("eithfirst", [], lambda maxn: [((), list(m)) for ln in range(maxn + 1) for m in itertools.product([0, 1], repeat=ln)], always),
     ]
 
@@ -130,7 +149,6 @@ def table():
 # operations on which the unchanged tree disagrees with the property (notes/C05.md, DEFECT CANDIDATE); run last
 def candidates():
     return [
-        ("opttocont", ["lr"], opt_sized(1), rv_only),
     ]
 
 
